@@ -242,6 +242,7 @@ type scriptTransport struct {
 	failRecv   bool
 	holdNext   bool
 	holdSend   bool // the next send blocks (inside the sender lock) until fG
+	failClose  bool // Close reports an error (after closing)
 	hold       chan struct{}
 	live       int32 // messages created and not yet released
 	recvLive   int32
@@ -402,6 +403,12 @@ func (t *scriptTransport) Close() error {
 		t.env.ev("!transport-closed-with-" + strconv.Itoa(int(n)) + "-unreleased-messages")
 	}
 	t.closeOnce.Do(func() { close(t.closed) })
+	t.mu.Lock()
+	fail := t.failClose
+	t.mu.Unlock()
+	if fail {
+		return errors.New("scripted close failure")
+	}
 	return nil
 }
 
@@ -1148,6 +1155,12 @@ func (e *rpcEnv) localOp(op string) string {
 		if !deadline(func() { err = e.conn.Close() }) {
 			return "blocked"
 		}
+		// whatever Close returned, the connection is finished now
+		select {
+		case <-e.conn.Done():
+		case <-time.After(time.Second):
+			e.ev("!Done-not-closed-after-Close")
+		}
 		if err != nil {
 			return "err"
 		}
@@ -1317,6 +1330,8 @@ func execRPCScript(script string, bootstrap bool) string {
 				e.t.holdNext = true // the release of the next received message waits for fG
 			case 'W':
 				e.t.holdSend = true // the next send waits for fG
+			case 'C':
+				e.t.failClose = true // the transport's Close will report an error
 			}
 			e.t.mu.Unlock()
 			if op[1] == 'G' {
@@ -1358,6 +1373,11 @@ func execRPCScript(script string, bootstrap bool) string {
 		}
 		if !closed {
 			e.conn.Close()
+			select {
+			case <-e.conn.Done():
+			case <-time.After(time.Second):
+				e.ev("!Done-not-closed-after-Close")
+			}
 		}
 		for i, h := range e.handles {
 			if h != nil {
@@ -1442,7 +1462,19 @@ func execRPC(f []string) string {
 		if plan == "-" {
 			plan = ""
 		}
-		return execRPCStream(f[1] == "1", n, plan)
+		return execRPCStream(f[1] == "1", n, plan, false)
+	case "streampre":
+		// as "stream", but every message is created before the first one is sent: a message created while the stream
+		// was healthy must not be written once it is broken
+		if len(f) != 4 {
+			return "bad-op"
+		}
+		n, _ := strconv.Atoi(f[2])
+		plan := f[3]
+		if plan == "-" {
+			plan = ""
+		}
+		return execRPCStream(f[1] == "1", n, plan, true)
 	}
 	return "bad-op"
 }
@@ -2047,7 +2079,7 @@ func mixedScript(r *lib.Rng, n int, hostile, faults bool) string {
 					"pHcorrupt:"+strconv.Itoa(r.Intn(20))+":"+strconv.Itoa(r.Intn(20))+":pDs0/a0.0"))
 				nextQ++
 			} else if faults {
-				add(r.PickS("fN1", "fN2", "fS1", "fS2", "fV", "fN1", "fS1"))
+				add(r.PickS("fN1", "fN2", "fS1", "fS2", "fV", "fN1", "fS1", "fC"))
 			}
 		default:
 			if r.Intn(3) == 0 {
@@ -2087,6 +2119,9 @@ var rpcDirected = []string{
 	"1pB0,pF0:0,fW,pC1:eX0:2,pF1:0,fG,pLX1:1,pB2",                                     // … without releaseResultCaps, then an explicit Release
 	"0lB,pRQ0:boot:s1,lC0:0,fW,lr0,pRQ0:ok:s1,fG,lH0:0,lC1:0,pRQ0:ok,lR1,lY0",         // a descriptor for an import arrives while its Release is still being written
 	"0lB,pRQ0:boot:s1,lC0:0,fW,lr0,pRQ0:ok:s1+s1,fG,lH0:0,lY0,lC1:0,pRQ0:ok,lR1",      // … two of them; the results are released first
+	"1fC,pB0,lZ",                                                                      // the transport's Close fails: Close returns, Done is closed
+	"1fC,pB0,fV,lZ",                                                                   // … after the Conn shut itself down on a receive error
+	"1fC,lB,pHabort,lZ,lZ",                                                            // … or on the peer's Abort
 	"1lB,fH,pRQ0:boot:s1,lB,fG,pRQ0:boot:s1",                                         // a new question while the Return's Finish is still to be sent
 	"1lB,lB,pRQ0:boot:s1,lS0:0,lr0,pRQ0:boot:s1,fG,lR1",                               // a reference to an import arrives while its last handle is being released
 	"1lB,lB,pRQ0:boot:s1,lS0:0,lr0,pRQ0:boot:s1,lR1,fG",                               // … and the newer client goes away first
@@ -2160,7 +2195,7 @@ func genC09(rec *lib.Rec, r *lib.Rng, thorough bool) {
 	for _, base := range rpcFaultBases {
 		ops := strings.Split(base, ",")
 		for pos := 0; pos < len(ops); pos++ {
-			for _, f := range []string{"fN1", "fS1", "fN2", "fS2", "fV", "lZ", "fN1,fS1"} {
+			for _, f := range []string{"fN1", "fS1", "fN2", "fS2", "fV", "lZ", "fN1,fS1", "fC,fV", "fC"} {
 				k++
 				if k%Shards != Shard || (!thorough && f == "fS2") {
 					continue
@@ -2177,6 +2212,7 @@ func genC09(rec *lib.Rec, r *lib.Rng, thorough bool) {
 				for _, k := range []string{"p", "z"} {
 					plan := strings.Repeat("f", i) + k
 					rec.Op("M", "rpc stream "+packed+" 5 "+plan, true)
+					rec.Op("M", "rpc streampre "+packed+" 5 "+plan, true)
 					for j := 0; j < 4; j++ {
 						rec.Op("M", "rpc stream "+packed+" 5 "+plan+strings.Repeat("f", j)+r.PickS("p", "z"), true)
 					}
@@ -2189,7 +2225,7 @@ func genC09(rec *lib.Rec, r *lib.Rng, thorough bool) {
 		for j := range plan {
 			plan[j] = "ffffffpz"[r.Intn(8)]
 		}
-		rec.Op("M", fmt.Sprintf("rpc stream %d %d %s", r.Intn(2), 2+r.Intn(6), plan), true)
+		rec.Op("M", fmt.Sprintf("rpc %s %d %d %s", r.PickS("stream", "stream", "streampre"), r.Intn(2), 2+r.Intn(6), plan), true)
 	}
 }
 
@@ -2247,7 +2283,7 @@ func (f *faultyRWC) Write(p []byte) (int, error) {
 	return n, err
 }
 
-func execRPCStream(packed bool, frames int, plan string) string {
+func execRPCStream(packed bool, frames int, plan string, pre bool) string {
 	rwc := &faultyRWC{plan: plan, blockCh: make(chan struct{})}
 	var tr rpc.Transport
 	if packed {
@@ -2261,13 +2297,16 @@ func execRPCStream(packed bool, frames int, plan string) string {
 	go func() { tr.RecvMessage(rctx); close(recvDone) }()
 	var res []string
 	var full [][]byte
-	for i := 0; i < frames; i++ {
-		rwc.cur = i
+	type created struct {
+		send    func() error
+		release capnp.ReleaseFunc
+	}
+	var early []created
+	create := func(i int) (created, bool) {
 		msg, send, release, err := tr.NewMessage(context.Background())
 		if err != nil {
-			res = append(res, "n") // NewMessage refused: the stream is marked broken
 			full = append(full, nil)
-			continue
+			return created{}, false
 		}
 		b, _ := msg.NewBootstrap()
 		b.SetQuestionId(uint32(1000 + i))
@@ -2278,12 +2317,35 @@ func execRPCStream(packed bool, frames int, plan string) string {
 			want, _ = msg.Message().Marshal()
 		}
 		full = append(full, want)
-		if err := send(); err != nil {
+		return created{send, release}, true
+	}
+	if pre {
+		for i := 0; i < frames; i++ {
+			c, ok := create(i)
+			if !ok {
+				return "!NewMessage-refused-on-a-healthy-stream"
+			}
+			early = append(early, c)
+		}
+	}
+	for i := 0; i < frames; i++ {
+		rwc.cur = i
+		var c created
+		if pre {
+			c = early[i]
+		} else {
+			var ok bool
+			if c, ok = create(i); !ok {
+				res = append(res, "n") // NewMessage refused: the stream is marked broken
+				continue
+			}
+		}
+		if err := c.send(); err != nil {
 			res = append(res, "e")
 		} else {
 			res = append(res, "o")
 		}
-		release()
+		c.release()
 	}
 	rcancel()
 	closeBad := ""
